@@ -232,6 +232,11 @@ func (e *Engine) callWrites(c *ssa.CallCommon, depth int) *writeSet {
 			for k, s := range e.ghostFamsOf(c.Value.Type()) {
 				ws.fams[k] = s
 			}
+			for _, a := range c.Args {
+				if mc, ok := a.(*ssa.MakeClosure); ok {
+					ws.add(e.funcWrites(mc.Fn.(*ssa.Function), depth+1))
+				}
+			}
 			return ws
 		}
 		fn = e.devirtTarget(c)
@@ -444,6 +449,9 @@ func (fr *Frame) call(site ssa.Instruction, c *ssa.CallCommon, st *State, pos st
 		// an (assumed) abstract contract on the interface method takes precedence over devirtualisation
 		if ifc := vc.eng.ifaceContract(c); ifc != nil && !(vc.root != nil && vc.eng.ifaceContractHidden(ifc, vc.root)) {
 			ifc.Used = true
+			if ifc.Flags["iterates"] != "" {
+				return fr.iterateCall(site, c, ifc, args, st, pos)
+			}
 			var pkg *types.Package
 			if n, ok := c.Value.Type().(*types.Named); ok {
 				pkg = n.Obj().Pkg()
@@ -719,7 +727,7 @@ func (fr *Frame) builtin(b *ssa.Builtin, c *ssa.CallCommon, args []Val, st *Stat
 	case "delete":
 		mt := c.Args[0].Type().Underlying().(*types.Map)
 		m := scalarOf(args[0], mt)
-		k := scalarOf(args[1], mt.Key())
+		k := vc.keyTerm(args[1], mt.Key())
 		// delete on a nil map is a no-op; guard the update
 		pre := st.clone()
 		vc.mapDelete(st, m, mt, k)
